@@ -5,6 +5,7 @@
 package main
 
 import (
+	"bytes"
 	"encoding/json"
 	"fmt"
 	"sort"
@@ -279,6 +280,65 @@ func step(w []string, line string) string {
 			request(w[1], uint16(u(w[2])), "presence", req)
 			b.Clients[w[1]].Await("puback:")
 			return collect(false, false, "")
+		case "cutsend":
+			// cutsend <client> <k> <inner op...>: send the first k bytes of the packet of the inner
+			// op (all of it if k >= its length), then drop the socket
+			k := int(u(w[2]))
+			inner := w[3:]
+			var pkt mqtt.Message
+			switch inner[0] {
+			case "sub":
+				pkt = &mqtt.Subscribe{Header: mqtt.Header{QOS: 1}, MessageID: uint16(u(inner[2])),
+					Subscriptions: []mqtt.TopicQOSTuple{{Topic: topic(inner[3], inner[4]), Qos: uint8(u(inner[5]))}}}
+			case "unsub":
+				pkt = &mqtt.Unsubscribe{Header: mqtt.Header{QOS: 1}, MessageID: uint16(u(inner[2])),
+					Topics: []mqtt.TopicQOSTuple{{Topic: topic(inner[3], inner[4])}}}
+			case "pub":
+				pkt = &mqtt.Publish{Header: mqtt.Header{QOS: uint8(u(inner[2])), Retain: inner[3] == "1"}, MessageID: uint16(u(inner[4])),
+					Topic: topic(inner[5], inner[6]), Payload: vlib.UnHex(inner[7])}
+			default:
+				panic("harness: cutsend of " + inner[0])
+			}
+			var buf bytes.Buffer
+			pkt.EncodeTo(&buf)
+			raw := buf.Bytes()
+			if k < len(raw) {
+				raw = raw[:k]
+			}
+			c := b.Clients[w[1]]
+			if len(raw) > 0 {
+				c.SendRaw(raw)
+			}
+			if k >= buf.Len() {
+				// the whole packet went out: give the broker the chance to serve it before the cut
+				switch inner[0] {
+				case "sub":
+					c.Await("suback:")
+				case "unsub":
+					c.Await("unsuback:")
+				case "pub":
+					if u(inner[2]) > 0 {
+						c.Await("puback:")
+					} else {
+						b.Settle()
+					}
+				}
+			}
+			c.CloseSocket()
+			return collect(true, false, w[1])
+		case "rawclose":
+			// protocol error: bytes that are not a packet; the broker drops the connection itself
+			c := b.Clients[w[1]]
+			c.SendRaw(vlib.UnHex(w[2]))
+			c.WaitClosed()
+			c.CloseSocket()
+			return collect(true, false, w[1])
+		case "disc":
+			c := b.Clients[w[1]]
+			c.Send(&mqtt.Disconnect{})
+			c.WaitClosed()
+			c.CloseSocket()
+			return collect(true, false, w[1])
 		case "close":
 			b.Clients[w[1]].CloseSocket()
 			return collect(true, false, w[1])
